@@ -79,6 +79,20 @@ for _mn in MNEMONICS:
         instr_unit(_mn)
 
 
+@unit("C01/constructors/immediates")
+def constructor_immediates():
+    """U1.1: for EVERY integer argument the format constructors store the sign-extended low bits
+    (12 for I/S, 13 for B, 20 for U, 21 for J) resp. the low 5 bits (shift amount)."""
+    from architecture_simulator.isa.riscv.rv32i_instructions import ADDI, LW, JALR, SLLI, SRAI, SW, BEQ, LUI, AUIPC, JAL
+    imm = sym_int("imm")
+    check("I", ADDI(1, 2, imm).imm == S.sext(imm, 12) and LW(1, 2, imm).imm == S.sext(imm, 12) and JALR(1, 2, imm).imm == S.sext(imm, 12))
+    check("shamt", SLLI(1, 2, imm).imm == imm % 32 and SRAI(1, 2, imm).imm == imm % 32)
+    check("S", SW(1, 2, imm).imm == S.sext(imm, 12))
+    check("B", BEQ(1, 2, imm).imm == S.sext(imm, 13))
+    check("U", LUI(1, imm).imm == S.sext(imm, 20) and AUIPC(1, imm).imm == S.sext(imm, 20))
+    check("J", JAL(1, imm, 0).imm == S.sext(imm, 21))
+
+
 # ------------------------------------------------------------------------------------ ecall
 def ecall_setup(code):
     st, regs0 = havoc_state()
